@@ -755,3 +755,280 @@ Proof.
   - exact Hdrop.
   - intro x. rewrite Lf. apply lead_ext. exact HL0.
 Qed.
+
+(* ---- the observable value -> leader map ------------------------------------------------------- *)
+
+Lemma aget_members : forall x k vs rest,
+  aget x (map (fun v => (v, k)) vs ++ rest) = if existsb (is_equal x) vs then Some k else aget x rest.
+Proof.
+  intros x k vs rest. induction vs as [|v t IH]; [reflexivity|].
+  cbn [map app aget existsb]. unfold is_equal at 1. destruct (val_eqb x v); cbn [orb]; [reflexivity | exact IH].
+Qed.
+
+Lemma aget_content_map : forall g x,
+  aget x (content_map g) = match found_groups g x with k :: _ => Some k | [] => None end.
+Proof.
+  intros [ks c] x. unfold content_map, found_groups. cbn [content].
+  induction c as [|[k vs] t IH]; [reflexivity|].
+  cbn [flat_map filter fst snd]. rewrite aget_members.
+  destruct (existsb (is_equal x) vs); cbn [map fst]; [reflexivity | exact IH].
+Qed.
+
+Lemma aget_content_map_in : forall g x, In x (values g) ->
+  aget x (content_map g) = Some (get_group g x).
+Proof.
+  intros g x Hx. rewrite aget_content_map. unfold get_group.
+  destruct (found_groups g x) as [|k t] eqn:E; [|reflexivity].
+  exfalso. apply In_dvalues in Hx. destruct Hx as (k & vs & Hi & Hv).
+  assert (Hin : In k (found_groups g x)).
+  { unfold found_groups. apply in_map_iff. exists (k, vs). split; [reflexivity|].
+    apply filter_In. split; [exact Hi|]. cbn [snd]. rewrite existsb_is_equal. apply mem_In; exact Hv. }
+  rewrite E in Hin. destruct Hin.
+Qed.
+
+Lemma aget_content_map_notin : forall g x, ~ In x (values g) -> aget x (content_map g) = None.
+Proof.
+  intros g x Hx. rewrite aget_content_map.
+  destruct (found_groups g x) as [|k t] eqn:E; [reflexivity|].
+  exfalso. apply Hx. assert (Hin : In k (found_groups g x)) by (rewrite E; left; reflexivity).
+  unfold found_groups in Hin. apply in_map_iff in Hin. destruct Hin as ([k' vs] & _ & Hf).
+  apply filter_In in Hf. destruct Hf as [Hi Hm]. cbn [snd] in Hm. rewrite existsb_is_equal in Hm.
+  apply In_dvalues. exists k', vs. split; [exact Hi | apply mem_In; exact Hm].
+Qed.
+
+(* ---- packaging: what init guarantees ----------------------------------------------------------- *)
+
+Lemma init_spec : forall levels c, (forall d, In d levels -> NoDup (dkeys d)) -> init levels = Ok c ->
+  (forall lv, In lv (c_levels c) -> WF lv) /\
+  (forall lv v, In lv (c_levels c) -> In v (values lv) -> In v (c_known c)) /\
+  (forall y, In y (c_known c) -> exists lv, In lv (c_levels c) /\ In y (values lv)).
+Proof.
+  intros levels c Hnd Ei. unfold init in Ei.
+  destruct (mapM of_dict levels) as [lvs| |] eqn:Em; cbn [bind] in Ei; try discriminate.
+  destruct (known_values lvs) as [known| |] eqn:Ek; cbn [bind] in Ei; try discriminate.
+  destruct (init_order known) as [o| |] eqn:Eo; cbn [bind] in Ei; try discriminate.
+  injection Ei as <-. cbn [c_levels c_known].
+  pose proof (mapM_of_dict_wf levels lvs Hnd Em) as Hwl.
+  destruct (known_values_spec lvs known Hwl Ek) as [K1 K2].
+  split; [exact Hwl|]. split; [exact K1 | exact K2].
+Qed.
+
+Lemma lead0_known : forall known filled x, In x known -> lead0 (unknown_values known filled) x = x.
+Proof.
+  intros known filled x Hx. unfold lead0.
+  destruct (mem x (unknown_values known filled)) eqn:E; [|reflexivity].
+  apply mem_In, unknown_values_spec in E. tauto.
+Qed.
+
+Lemma lead_self : forall mf n all col0 pre L x, L x = x ->
+  (forall lv, In lv pre -> In x (values lv) -> get_group lv x = x) ->
+  lead mf n all col0 pre L x = x.
+Proof.
+  intros mf n all col0 pre. induction pre as [|lv t IH]; intros L x HL Hp; cbn [lead]; [exact HL|].
+  apply IH; [|intros l Hl; apply Hp; right; exact Hl].
+  destruct (lead_step_cases mf n all col0 lv L x) as [[E _]|[E [Hin _]]]; rewrite E, HL; [reflexivity|].
+  apply Hp; [left; reflexivity|]. rewrite <- HL. exact Hin.
+Qed.
+
+(* the training column as the level loop first sees it *)
+Lemma cur_lead0_id : forall lvs known filled,
+  (forall lv v, In lv lvs -> In v (values lv) -> In v known) ->
+  map (cur lvs (lead0 (unknown_values known filled))) filled = filled.
+Proof.
+  intros lvs known filled K1. rewrite <- (map_id filled) at 2. apply map_ext_in. intros r Hr.
+  unfold cur. destruct (hierb lvs r) eqn:Eh; [|reflexivity].
+  unfold hierb in Eh. apply existsb_exists in Eh. destruct Eh as (l & Hl & Hm). apply mem_In in Hm.
+  apply lead0_known. apply (K1 l r Hl Hm).
+Qed.
+
+(* ---- the property theorems (restated in Properties/C18.v) -------------------------------------- *)
+
+Section Packaged.
+(* no Variable/Hypothesis: everything is quantified explicitly in each statement *)
+End Packaged.
+
+Definition fitted (levels : list dict) (col : list val) (mfd : Z * Z) (drop : bool)
+                  (c : chained) (g : gl) (lpv : vmap) : Prop :=
+  (forall d, In d levels -> NoDup (dkeys d)) /\
+  init levels = Ok c /\ no_nan_levels (c_levels c) /\
+  fit levels col mfd drop = Ok (Fitted g lpv).
+
+Lemma fitted_facts : forall levels col mfd drop c g lpv, fitted levels col mfd drop c g lpv ->
+  let mf := f_of_dyadic (fst mfd) (snd mfd) in
+  let n := Z.of_nat (List.length col) in
+  let filled := fillna col in
+  let unk := unknown_values (c_known c) filled in
+  WF g /\ lpv = labels_per_values g /\
+  (forall v, In v (c_known c) -> In v (values g)) /\
+  (forall r, In r filled -> In r (values g)) /\
+  (forall v, In v (values g) -> In v (c_known c) \/ v = nan_s \/ In v unk) /\
+  (unk <> [] -> drop = true) /\
+  (forall x, get_group g x = lead mf n (c_levels c) filled (c_levels c) (lead0 unk) x).
+Proof.
+  intros levels col mfd drop c g lpv (Hnd & Ei & Hnn & Hfit).
+  destruct (fit_refines levels col mfd drop g lpv Hnd Hfit) as (c' & Ei' & H).
+  rewrite Ei in Ei'. injection Ei' as <-. exact (H Hnn).
+Qed.
+
+Theorem chained_known_kept : forall levels col mfd drop c g lpv,
+  fitted levels col mfd drop c g lpv ->
+  (forall lv v, In lv (c_levels c) -> In v (values lv) -> In v (c_known c)) /\
+  (forall v, In v (c_known c) ->
+     In v (values g) /\ aget v (content_map g) = Some (get_group g v)).
+Proof.
+  intros levels col mfd drop c g lpv HF. pose proof HF as (Hnd & Ei & Hnn & Hfit).
+  destruct (init_spec levels c Hnd Ei) as (_ & K1 & _).
+  destruct (fitted_facts _ _ _ _ _ _ _ HF) as (_ & _ & Hk & _).
+  split; [exact K1|]. intros v Hv. split; [apply Hk; exact Hv|].
+  apply aget_content_map_in. apply Hk; exact Hv.
+Qed.
+
+Theorem chained_refines_rule : forall levels col mfd drop c g lpv,
+  fitted levels col mfd drop c g lpv ->
+  forall x, In x (values g) ->
+  aget x (content_map g) =
+  Some (lead (f_of_dyadic (fst mfd) (snd mfd)) (Z.of_nat (List.length col)) (c_levels c) (fillna col)
+             (c_levels c) (lead0 (unknown_values (c_known c) (fillna col))) x).
+Proof.
+  intros levels col mfd drop c g lpv HF x Hx.
+  destruct (fitted_facts _ _ _ _ _ _ _ HF) as (_ & _ & _ & _ & _ & _ & HL).
+  rewrite (aget_content_map_in g x Hx), HL. reflexivity.
+Qed.
+
+Theorem leader_is_ancestor_or_self : forall levels col mfd drop c g lpv,
+  fitted levels col mfd drop c g lpv ->
+  forall x, In x (c_known c) -> climbs (c_levels c) x (get_group g x).
+Proof.
+  intros levels col mfd drop c g lpv HF x Hx.
+  destruct (fitted_facts _ _ _ _ _ _ _ HF) as (_ & _ & _ & _ & _ & _ & HL).
+  rewrite HL.
+  pose proof (lead_climbs (f_of_dyadic (fst mfd) (snd mfd)) (Z.of_nat (List.length col)) (c_levels c)
+                (fillna col) (c_levels c) (lead0 (unknown_values (c_known c) (fillna col))) x) as H.
+  rewrite (lead0_known _ _ x Hx) in H. exact H.
+Qed.
+
+Theorem chained_rule_level : forall levels col mfd drop c g lpv pre lv post x,
+  fitted levels col mfd drop c g lpv ->
+  c_levels c = pre ++ lv :: post -> In x (c_known c) ->
+  (forall lv', In lv' pre -> In x (values lv') -> get_group lv' x = x) ->
+  (forall lv', In lv' post -> ~ In x (values lv')) ->
+  let mf := f_of_dyadic (fst mfd) (snd mfd) in
+  let n := Z.of_nat (List.length col) in
+  let Lk := lead mf n (c_levels c) (fillna col) pre (lead0 (unknown_values (c_known c) (fillna col))) in
+  (get_group g x = x <->
+   (~ In x (values lv) \/ get_group lv x = x \/
+    keepb mf n (map (cur (c_levels c) Lk) (fillna col)) x = true)).
+Proof.
+  intros levels col mfd drop c g lpv pre lv post x HF Hsplit Hx Hpre Hpost. cbn zeta.
+  pose proof HF as (Hnd & Ei & Hnn & Hfit).
+  destruct (init_spec levels c Hnd Ei) as (Hwl & _ & _).
+  destruct (fitted_facts _ _ _ _ _ _ _ HF) as (_ & _ & _ & _ & _ & _ & HL).
+  rewrite HL. rewrite Hsplit at 2.
+  apply lead_rule_level.
+  - intros l Hl. apply Hwl. rewrite Hsplit. apply in_or_app. right. right. exact Hl.
+  - apply lead_self; [apply lead0_known; exact Hx | exact Hpre].
+  - exact Hpost.
+Qed.
+
+Theorem chained_rule_bottom : forall levels col mfd drop c g lpv lv0 post x,
+  fitted levels col mfd drop c g lpv ->
+  c_levels c = lv0 :: post -> In x (values lv0) ->
+  (forall lv', In lv' post -> ~ In x (values lv')) ->
+  (get_group g x = x <->
+   (get_group lv0 x = x \/
+    keepb (f_of_dyadic (fst mfd) (snd mfd)) (Z.of_nat (List.length col)) (fillna col) x = true)).
+Proof.
+  intros levels col mfd drop c g lpv lv0 post x HF Hsplit Hx Hpost.
+  pose proof HF as (Hnd & Ei & Hnn & Hfit).
+  destruct (init_spec levels c Hnd Ei) as (_ & K1 & _).
+  assert (Hk : In x (c_known c)).
+  { apply (K1 lv0 x); [rewrite Hsplit; left; reflexivity | exact Hx]. }
+  pose proof (chained_rule_level levels col mfd drop c g lpv [] lv0 post x HF Hsplit Hk
+                (fun l (H : In l []) _ => match H with end) Hpost) as H.
+  cbn zeta in H. cbn [lead] in H. rewrite (cur_lead0_id (c_levels c) (c_known c) (fillna col) K1) in H.
+  rewrite H. split.
+  - intros [Hn|[Hp|Hkp]]; [tauto | left; exact Hp | right; exact Hkp].
+  - intros [Hp|Hkp]; [right; left; exact Hp | right; right; exact Hkp].
+Qed.
+
+Theorem rare_group_merged_further_up : forall levels col mfd drop c g lpv pre lv post x,
+  fitted levels col mfd drop c g lpv ->
+  c_levels c = pre ++ lv :: post ->
+  let mf := f_of_dyadic (fst mfd) (snd mfd) in
+  let n := Z.of_nat (List.length col) in
+  let L0 := lead0 (unknown_values (c_known c) (fillna col)) in
+  let Lk := lead mf n (c_levels c) (fillna col) pre L0 in
+  In (Lk x) (values lv) ->
+  keepb mf n (map (cur (c_levels c) Lk) (fillna col)) (Lk x) = false ->
+  lead mf n (c_levels c) (fillna col) (pre ++ [lv]) L0 x = get_group lv (Lk x) /\
+  climbs post (get_group lv (Lk x)) (get_group g x).
+Proof.
+  intros levels col mfd drop c g lpv pre lv post x HF Hsplit. cbn zeta. intros Hin Hkeep.
+  destruct (fitted_facts _ _ _ _ _ _ _ HF) as (_ & _ & _ & _ & _ & _ & HL).
+  set (mf := f_of_dyadic (fst mfd) (snd mfd)) in *. set (n := Z.of_nat (List.length col)) in *.
+  set (L0 := lead0 (unknown_values (c_known c) (fillna col))) in *.
+  set (Lk := lead mf n (c_levels c) (fillna col) pre L0) in *.
+  assert (E : lead_step mf n (c_levels c) (fillna col) lv Lk x = get_group lv (Lk x)).
+  { destruct (lead_step_cases mf n (c_levels c) (fillna col) lv Lk x) as [[_ [Hc|Hc]]|[E _]];
+      [tauto | rewrite Hc in Hkeep; discriminate | exact E]. }
+  split.
+  - rewrite lead_app. cbn [lead]. exact E.
+  - rewrite HL. rewrite Hsplit at 2. rewrite lead_app. cbn [lead]. fold Lk.
+    rewrite <- E. apply lead_climbs.
+Qed.
+
+Theorem chained_unknown_raise : forall levels col mfd c,
+  init levels = Ok c ->
+  feature_dropped (f_of_dyadic (fst mfd) (snd mfd)) col = false ->
+  unknown_values (c_known c) (fillna col) <> [] ->
+  fit levels col mfd false = AssertErr.
+Proof.
+  intros levels col mfd c Ei Hd Hu. unfold fit. rewrite Ei. cbn [bind]. rewrite Hd.
+  unfold prepare. destruct (unknown_values (c_known c) (fillna col)); [tauto|]. reflexivity.
+Qed.
+
+Theorem chained_unknown_drop : forall levels col mfd drop c g lpv,
+  fitted levels col mfd drop c g lpv ->
+  (unknown_values (c_known c) (fillna col) <> [] -> drop = true) /\
+  (forall u, In u (unknown_values (c_known c) (fillna col)) ->
+     In u (values g) /\ aget u (content_map g) = Some nan_s) /\
+  (In nan_s (fillna col) -> aget nan_s (content_map g) = Some nan_s).
+Proof.
+  intros levels col mfd drop c g lpv HF. pose proof HF as (Hnd & Ei & Hnn & Hfit).
+  destruct (fitted_facts _ _ _ _ _ _ _ HF) as (_ & _ & _ & Hrows & _ & Hdrop & HL).
+  assert (Hfix : forall y, lead0 (unknown_values (c_known c) (fillna col)) y = nan_s -> get_group g y = nan_s).
+  { intros y Hy. rewrite HL, lead_fix; [exact Hy|].
+    intros l Hl. rewrite Hy. apply (Hnn l Hl). }
+  split; [exact Hdrop|]. split.
+  - intros u Hu. pose proof Hu as Hu'. apply unknown_values_spec in Hu'. destruct Hu' as (Hf & _).
+    split; [apply Hrows; exact Hf|].
+    rewrite (aget_content_map_in g u (Hrows u Hf)). f_equal. apply Hfix.
+    unfold lead0. replace (mem u _) with true by (symmetry; apply mem_In; exact Hu). reflexivity.
+  - intros Hn. rewrite (aget_content_map_in g nan_s (Hrows _ Hn)). f_equal. apply Hfix.
+    unfold lead0. destruct (mem nan_s _); reflexivity.
+Qed.
+
+(* transform = lookup in the fitted value -> label map, str_nan shown as NaN *)
+Theorem chained_transform_lookup : forall g lpv col out, transform g lpv col = Ok out ->
+  (forall r, In r (fillna col) -> In r (values g)) /\
+  out = map (fun r =>
+               let l := match aget r lpv with Some l => l | None => r end in
+               match aget nan_s lpv with
+               | Some ln => if val_eqb l ln then VNaN else l
+               | None => l
+               end) (fillna col).
+Proof.
+  intros g lpv col out H. unfold transform in H.
+  destruct (forallb (fun v => mem v (values g)) (uniq (fillna col))) eqn:Ef; cbn [negb] in H; [|discriminate].
+  injection H as <-. split.
+  - intros r Hr. rewrite forallb_forall in Ef. apply mem_In, Ef, In_uniq, Hr.
+  - destruct (aget nan_s lpv); [rewrite map_map|]; reflexivity.
+Qed.
+
+(* the checker's ancestor test is the ancestor relation *)
+Theorem climbsb_spec : forall lvs v a, climbsb lvs v a = true <-> climbs lvs v a.
+Proof.
+  induction lvs as [|lv t IH]; intros v a; cbn [climbsb climbs].
+  - apply val_eqb_eq.
+  - rewrite orb_true_iff, andb_true_iff, !IH, mem_In. tauto.
+Qed.
